@@ -98,6 +98,7 @@ class World(WorldBase):
         self.handles = {}     # hid -> dict(path, gen, cursor, f, stale)
         self.next_h = 0
         self.next_c = 0
+        self.delivered = []   # (array as returned, expected copy, description, tag) of recent reads
 
     # ------------------------------------------------------------------ generation ----
     def gen(self, rng):
@@ -471,6 +472,8 @@ class World(WorldBase):
         if fired:
             self.ctx.probe("read_correct_under_" + fired[0])
         d["cursor"] += 1
+        # the client keeps what it was given: later reads must not change an earlier frame
+        self.delivered = (self.delivered + [(res, want, f"frame {d['cursor'] - 1} of {d['path']}", tag)])[-12:]
         return f"{h} t={d['cursor'] - 1} nmax={nmax} ev={nev} io={dig}"
 
     def do_close(self, op):
@@ -489,6 +492,10 @@ class World(WorldBase):
     # ------------------------------------------------------------------ bookkeeping ----
     def invariants(self):
         self.check_acked()
+        for got, want, what, tag in self.delivered:
+            if got.dtype != want.dtype or got.shape != want.shape or not np.array_equal(got, want):
+                raise Violation(f"C05/delivered-frame-changed:{tag}",
+                                f"the array returned earlier for {what} no longer holds that frame (a later read changed it)")
         for h, d in self.handles.items():
             if not d["stale"] and d["gen"] != self.files[d["path"]]["gen"]:
                 raise AssertionError("handle generation bookkeeping")
